@@ -59,6 +59,7 @@ type Session struct {
 	Blocks   [][]Child       `json:"blocks"`
 	Nest     string          `json:"nest"` // conc: plain | if | for
 	Pre      bool            `json:"pre"`  // conc: the locals the children assign already exist before the block
+	Twin     bool            `json:"twin"`  // conc, silent (race detector) runs only: a second rule with the same body (own object), run at the same time
 	Quiet    []int           `json:"quiet"` // conc: blocks (1-based) followed directly by the next block, no statement between
 	Dups     []int           `json:"dups"`  // conc: per block, copies of one identical statement (obj.Bump()) among its children
 	NReq     int             `json:"nreq"` // conc on a pool: this many requests run the body at the same time
@@ -552,7 +553,15 @@ func runConc(s *Session, quiet time.Duration, seed int64, tmo time.Duration) ([]
 	}
 	all = append(all, obs.Event{"ev": "cbegin", "blocks": blocks, "quiet": quietOf(s), "dups": dupsOf(s)})
 	text := concText(s)
+	twin := s.Twin && s.Silent
+	if twin {
+		// two rules with conc blocks of their own running at once: each has its own locals and its own injected object
+		t2 := strings.Replace(text, "rule \"c\"", "rule \"c2\"", 1)
+		t2 = strings.ReplaceAll(t2, "obj.", "obj2.")
+		text += t2
+	}
 	dc := context.NewDataContext()
+	dc.Add("obj2", &Obj{In: &Inner{}})
 	dc.Add("hold", childDo)
 	dc.Add("yes", func() bool { return true })
 	dc.Add("after", func(b int64, n int64) { o.Emit(obs.Event{"ev": "after", "b": b, "bumps": n}) })
@@ -578,7 +587,11 @@ func runConc(s *Session, quiet time.Duration, seed int64, tmo time.Duration) ([]
 					pv = r
 				}
 			}()
-			err = g.Execute(rb, true)
+			if twin {
+				err = g.ExecuteConcurrent(rb)
+			} else {
+				err = g.Execute(rb, true)
+			}
 		}()
 		o.Emit(obs.Event{"ev": "creturn", "err": err != nil, "panic": pv != nil})
 		close(done)
